@@ -354,9 +354,16 @@ fn test_close(c: &CloseCase) -> TestResult {
     let mut replies: Vec<wire::Reply> = recs.iter().map(wire::classify_out).collect::<Result<_, _>>().map_err(|e| Fail::new("c17-epilogue", e))?;
     // a pending management reply (Filter role only: `close` has to read up to the final stream)
     // goes out before the epilogue, intact
+    // is intact and next to the epilogue, not inside it (C07, not C17, says it goes first)
     if c.query && c.role == wire::ROLE_FILTER {
-        vensure!(replies.first() == Some(&wire::Reply::Unknown { id: 0, ty: 0xc8 }), "c17-epilogue", "expected the pending UnknownType reply before the end-of-request sequence, log starts with {:?}", replies.first());
-        replies.remove(0);
+        let want = wire::Reply::Unknown { id: 0, ty: 0xc8 };
+        if replies.first() == Some(&want) {
+            replies.remove(0);
+        } else if replies.len() == 4 && replies.last() == Some(&want) {
+            replies.pop();
+        } else {
+            vfail!("c17-epilogue", "expected the pending UnknownType reply next to the end-of-request sequence, log is {replies:?}");
+        }
     }
     vensure!(replies.len() == 3, "c17-epilogue", "end-of-request sequence for role {} has {} records: {replies:?}", c.role, replies.len());
     let mut ends: Vec<u8> = Vec::new();
@@ -367,6 +374,7 @@ fn test_close(c: &CloseCase) -> TestResult {
         }
     }
     ends.sort_unstable();
+    // "one empty record per output stream": the statement does not order the two
     vensure!(ends == vec![wire::T_STDOUT, wire::T_STDERR], "c17-epilogue", "the two stream-end records have types {ends:?}");
     vensure!(replies[2] == wire::Reply::End { id: c.id, proto, app }, "c17-epilogue", "final record {:?}, expected EndRequest{{id {}, protocol {proto}, app {app:#x}}}", replies[2], c.id);
     Ok(Outcome::new(true).label_if(c.keep, "keep-conn"))
